@@ -13,6 +13,9 @@ fn main() {
     }
     let check = argv[1].clone();
     let args = Args::parse(&argv[2..]);
+    if check == "smcrash-child" {
+        dverif::comp::smcrash::child(&args);
+    }
     let scratch = PathBuf::from(args.str(
         "scratch",
         &format!("/tmp/dverif-scratch-{}", std::process::id()),
